@@ -63,6 +63,17 @@ type msgPlan struct {
 	Pause  []int  `json:"pause"`  // "nw": the application pauses after these calls (0: NextWriter, i: the i-th Write)
 }
 
+// faultPlan: the K-th transport write of call C of process P fails although the transport stays open, after
+// the transport has accepted a proper prefix of the bytes (a non-empty one if Some); Kind "timeout": the
+// error is a net.Error with Timeout() (a write deadline inside net.Conn.Write), "error": a plain error.
+type faultPlan struct {
+	P    string `json:"p"`
+	C    int    `json:"c"`
+	K    int    `json:"k"`
+	Some bool   `json:"some"`
+	Kind string `json:"kind"`
+}
+
 type schedCase struct {
 	Family   string     `json:"family"`
 	Role     string     `json:"role"`
@@ -70,6 +81,7 @@ type schedCase struct {
 	Msgs     []msgPlan  `json:"msgs"`
 	Ctl      [][]string `json:"ctl"`
 	Rd       []string   `json:"rd"` // answers of the reader's handlers: "pong"/"close" (+"@": default handler)
+	Fault    []faultPlan `json:"fault"`
 	Closer   bool       `json:"closer"`
 	Sched    []string   `json:"sched"`
 	Attack   bool       `json:"attack"`
@@ -223,6 +235,7 @@ func tokenize(writes [][]byte, client bool) []frameRec {
 
 type procEvent struct {
 	ret   bool // a call returned (otherwise: arrived at the gate)
+	stops bool // R: the handler handed an error to the read loop, which ends
 	op    string
 	bytes []byte
 	reply chan error
@@ -243,6 +256,7 @@ type proc struct {
 	// scheduler side
 	stopped  bool  // R: no further frame of the peer can reach a handler
 	need     int64 // K, R: bytes of the control frame in progress that have not reached the transport yet
+	wcount   int   // transport writes of the call in progress
 	begun    int
 	busy     bool
 	derailed bool
@@ -252,8 +266,10 @@ type proc struct {
 type writeRec struct {
 	proc  string
 	call  int
-	bytes []byte
+	bytes []byte // what the library handed to the transport
 	ok    bool
+	cut   string // "some"/"none": the write failed with the transport open after a prefix was accepted
+	wire  []byte // what reached the wire: bytes (ok), a proper prefix (cut), nothing
 	// filled in afterwards from the process' own byte stream
 	frame int
 	part  string
@@ -269,6 +285,7 @@ type traceEv struct {
 	Cls   string `json:"cls"`
 	Ok    bool   `json:"ok"`
 	Res   string `json:"res"`
+	Cut   string `json:"cut"`
 	w     int    // index into session.writes for twrite events, else -1
 }
 
@@ -290,6 +307,9 @@ type session struct {
 	peerSide *transport.Conn // the peer's end: frames of the peer are written here
 	rdOpen   map[string]int  // frames of the peer injected while D had its message open: "app"/"write" -> count
 
+	faults       int  // transport writes that were made to fail with the transport open
+	timeoutFault bool // ... one of them with a timeout error
+
 	timeouts, skipped int
 	late              int      // predictions of the generator that did not come true in time
 	item              int      // index of the schedule item being executed
@@ -299,6 +319,23 @@ type session struct {
 }
 
 var errTransportClosed = errors.New("gated transport: use of closed connection")
+
+// the injected transport faults
+type gateTimeout struct{}
+
+func (gateTimeout) Error() string   { return "gated transport: i/o timeout" }
+func (gateTimeout) Timeout() bool   { return true }
+func (gateTimeout) Temporary() bool { return true }
+
+var errTransportFault = errors.New("gated transport: write failed")
+
+// cutErr carries the result of a transport write that accepted n bytes and failed.
+type cutErr struct {
+	n   int
+	err error
+}
+
+func (c *cutErr) Error() string { return c.err.Error() }
 
 func goid() int64 {
 	var buf [64]byte
@@ -343,6 +380,9 @@ func (g *gateConn) gated(op string, b []byte) error {
 
 func (g *gateConn) Write(b []byte) (int, error) {
 	if err := g.gated("write", b); err != nil {
+		if ce, ok := err.(*cutErr); ok {
+			return ce.n, ce.err
+		}
 		return 0, err
 	}
 	return len(b), nil
@@ -362,12 +402,55 @@ func (s *session) performLocked(name string, call int, op string, b []byte) erro
 	}
 	w := &writeRec{proc: name, call: call, bytes: append([]byte(nil), b...), ok: !s.closed}
 	s.writes = append(s.writes, w)
+	if f := s.faultFor(name, call); f != nil && !s.closed {
+		// the transport accepts a proper prefix and fails; it stays open
+		n := 0
+		if f.Some {
+			if n = len(b) / 2; n < 1 {
+				n = 1
+			}
+			if n >= len(b) {
+				n = len(b) - 1
+			}
+		}
+		w.ok, w.cut = false, "none"
+		if n > 0 {
+			w.cut, w.wire = "some", w.bytes[:n]
+			if _, err := s.inner.Write(w.wire); err != nil {
+				rp.Bug("in-memory transport refused a write: %v", err)
+			}
+		}
+		s.ev = append(s.ev, traceEv{Ev: "twrite", Proc: name, Call: call, Ok: false, Cut: w.cut, w: len(s.writes) - 1})
+		s.faults++
+		var err error = errTransportFault
+		if f.Kind == "timeout" {
+			err = gateTimeout{}
+			s.timeoutFault = true
+		}
+		return &cutErr{n, err}
+	}
 	s.ev = append(s.ev, traceEv{Ev: "twrite", Proc: name, Call: call, Ok: w.ok, w: len(s.writes) - 1})
 	if s.closed {
 		return errTransportClosed
 	}
+	w.wire = w.bytes
 	if _, err := s.inner.Write(b); err != nil {
 		rp.Bug("in-memory transport refused a write: %v", err)
+	}
+	return nil
+}
+
+// faultFor: is the transport write process `name` is making in call `call` one that fails (the caller holds s.umu)
+func (s *session) faultFor(name string, call int) *faultPlan {
+	p := s.procs[name]
+	if p == nil || call == 0 {
+		return nil
+	}
+	for i := range s.c.Fault {
+		f := &s.c.Fault[i]
+		if f.P == name && f.C == call && f.K == p.wcount {
+			return f
+		}
 	}
 	return nil
 }
@@ -378,6 +461,9 @@ func (s *session) perform(p *proc, e procEvent) {
 		s.record(traceEv{Ev: "resume", Proc: p.name, Call: p.begun, Ok: true})
 		e.reply <- nil
 		return
+	}
+	if e.op == "write" {
+		p.wcount++
 	}
 	<-s.umu
 	err := s.performLocked(p.name, p.begun, e.op, e.bytes)
@@ -454,7 +540,7 @@ func (s *session) inject(p *proc) bool {
 	}
 	p.begun++
 	p.busy = true
-	p.need = 0
+	p.need, p.wcount = 0, 0
 	if op == "close" {
 		p.stopped = true // the reader returns the peer's close as an error and reads no more
 	}
@@ -487,7 +573,7 @@ func (s *session) handle(p *proc, j int, dflt bool, h func() error) (err error) 
 			s.notePanic(fmt.Sprintf("%s call %d (handler on the reading goroutine): %v\n%s", p.name, j, e, debug.Stack()))
 			err = errors.New("handler panicked")
 		}
-		p.evc <- procEvent{ret: true, call: j, res: res}
+		p.evc <- procEvent{ret: true, call: j, res: res, stops: err != nil}
 	}()
 	err = h()
 	if dflt {
@@ -564,6 +650,9 @@ func (s *session) lose(why string) {
 
 func (s *session) onRet(p *proc, e procEvent) {
 	p.busy = false
+	if e.stops {
+		p.stopped = true
+	}
 	s.record(traceEv{Ev: "ret", Proc: p.name, Call: e.call, Res: e.res, Ok: true})
 }
 
@@ -573,7 +662,7 @@ func (s *session) doBegin(p *proc) bool {
 	}
 	p.begun++
 	p.busy = true
-	p.need = 0
+	p.need, p.wcount = 0, 0
 	s.record(traceEv{Ev: "begin", Proc: p.name, Call: p.begun, Ok: true})
 	p.goCh <- struct{}{}
 	return true
@@ -1161,6 +1250,10 @@ func (s *session) evaluate(idx int, payloads [][]byte, got []delivered, xClosed 
 		C int    `json:"c"`
 		N int    `json:"n"`
 	}
+	fault := c.Fault
+	if fault == nil {
+		fault = []faultPlan{}
+	}
 	cx := []cxRec{}
 	for _, w := range s.writes {
 		if w.part == "ctl" && w.frame == 1 {
@@ -1174,6 +1267,7 @@ func (s *session) evaluate(idx int, payloads [][]byte, got []delivered, xClosed 
 	var okWrites [][]byte
 	closeAt := -1 // index in okWrites of the last part of the first Close frame that is on the wire
 	var closeW *writeRec
+	cutAt := -1 // index in okWrites of the first prefix a failed write left on the wire
 	for i := range s.ev {
 		e := &s.ev[i]
 		if e.Ev != "twrite" {
@@ -1181,6 +1275,13 @@ func (s *session) evaluate(idx int, payloads [][]byte, got []delivered, xClosed 
 		}
 		w := s.writes[e.w]
 		e.Frame, e.Part, e.Cls = w.frame, w.part, w.cls
+		if w.cut == "some" {
+			// the accepted prefix of a write that failed: on the wire, and the frame stays incomplete
+			okWrites = append(okWrites, w.wire)
+			if cutAt < 0 {
+				cutAt = len(okWrites) - 1
+			}
+		}
 		if w.ok {
 			okWrites = append(okWrites, w.bytes)
 			if w.cls == "close" && closeAt < 0 {
@@ -1209,7 +1310,8 @@ func (s *session) evaluate(idx int, payloads [][]byte, got []delivered, xClosed 
 
 	o.line = map[string]interface{}{
 		"case": idx, "family": c.Family,
-		"prog":      map[string]interface{}{"msgs": msgs, "hold": hold, "ctl": c.Ctl, "rd": rd, "cx": cx, "closer": c.Closer},
+		"prog": map[string]interface{}{"msgs": msgs, "hold": hold, "ctl": c.Ctl, "rd": rd, "cx": cx, "fault": fault,
+			"closer": c.Closer},
 		"ev":        append(s.ev, traceEv{Ev: "end", Ok: true}),
 		"frames":    frames,
 		"delivered": ids,
@@ -1229,12 +1331,17 @@ func (s *session) evaluate(idx int, payloads [][]byte, got []delivered, xClosed 
 		problem("C15/stall", "calls of %v did not return within %v after every transport operation was served", s.stalled, stallTimeout)
 	}
 	for i, f := range frames {
-		bad := f.Cls == "bad" || strings.HasPrefix(f.Cls, "misaligned") || (f.Cls == "partial" && (i != len(frames)-1 || !xClosed))
+		// an unfinished last frame is what a transport that was closed or failed inside a frame leaves
+		bad := f.Cls == "bad" || strings.HasPrefix(f.Cls, "misaligned") || (f.Cls == "partial" && (i != len(frames)-1 || !(xClosed || s.faults > 0)))
 		if bad {
 			problem("C15/torn-frame", "the wire bytes are not a sequence of whole frames: frame #%d is %q (transport writes %d..%d of %d: %s)",
 				i+1, f.Cls, f.W0, f.W1, len(okWrites), s.wireSummary())
 			break
 		}
+	}
+	if cutAt >= 0 && cutAt != len(okWrites)-1 {
+		problem("C15/write-after-failed-write", "%d transport write(s) reached the wire behind the prefix of a frame whose transport write had failed (%s)",
+			len(okWrites)-1-cutAt, s.wireSummary())
 	}
 	if closeAt >= 0 && closeAt != len(okWrites)-1 {
 		problem("C15/write-after-close", "%d transport write(s) reached the wire after the Close frame (%s)", len(okWrites)-1-closeAt, s.wireSummary())
@@ -1268,7 +1375,7 @@ func (s *session) evaluate(idx int, payloads [][]byte, got []delivered, xClosed 
 		}
 	}
 	for _, e := range s.ev {
-		if e.Ev == "ret" && e.Res == "timeout" {
+		if e.Ev == "ret" && e.Res == "timeout" && !s.timeoutFault { // (a transport timeout and the sticky error it leaves look the same)
 			if !s.shortCall(e.Proc, e.Call) {
 				problem("C15/timeout-without-deadline", "%s call %d returned a write timeout although its deadline is far away", e.Proc, e.Call)
 			}
@@ -1325,6 +1432,7 @@ func (s *session) evaluate(idx int, payloads [][]byte, got []delivered, xClosed 
 	}
 	o.info["rd_open_app"] = s.rdOpen["app"]
 	o.info["rd_open_write"] = s.rdOpen["write"]
+	o.info["faults"] = s.faults
 	return o
 }
 
@@ -1343,7 +1451,9 @@ func (s *session) wireSummary() string {
 	var parts []string
 	for _, w := range s.writes {
 		t := fmt.Sprintf("%s.%d/%s:%s", w.proc, w.call, w.part, w.cls)
-		if !w.ok {
+		if w.cut != "" {
+			t += fmt.Sprintf("(cut after %d of %d bytes)", len(w.wire), len(w.bytes))
+		} else if !w.ok {
 			t += "(failed)"
 		}
 		parts = append(parts, t)
